@@ -85,7 +85,7 @@ def run_tlc(module, workdir=None, workers=None, timeout=3600, simulate=None, dep
     shutil.rmtree(meta, ignore_errors=True)
     os.makedirs(meta, exist_ok=True)
     cmd = tlc_cmd(heap, dfs)
-    cmd += ["-metadir", meta, "-workers", str(workers or NCPU), "-config", module + ".cfg", "-noGenerateSpecTE"]
+    cmd += ["-metadir", meta, "-workers", str(workers or int(os.environ.get("VERIF_TLC_WORKERS", "0")) or NCPU), "-config", module + ".cfg", "-noGenerateSpecTE"]
     if coverage:
         cmd += ["-coverage", "1"]
     if simulate:
